@@ -39,7 +39,7 @@ ASSUMPTIONS = [
 ]
 MUST_REACH = {"valid_out_delivered": 300, "valid_in_delivered": 300, "garbage_datagrams": 300, "templates_covered": 300,
               "discard_random": 20, "discard_truncated": 20, "discard_unknown_host": 10, "discard_unregistered_circuit": 10,
-              "discard_banned": 5, "discard_bad_socks": 20, "discard_presession": 5, "reopened_circuits": 3, "closing_messages_checked": 3, "sessions_claimed_out_of_login_order": 2,
+              "discard_banned": 5, "discard_bad_socks": 20, "discard_presession": 5, "reopened_circuits": 3, "closing_messages_checked": 3, "sessions_claimed_out_of_login_order": 2, "sequences_deferred_parsing": 5, "sequences_eager_parsing": 5,
               "same_ip_sequences": 2, "multi_region_deliveries": 50}
 
 _es = Settings()
@@ -141,6 +141,9 @@ def run_sequence(ctx, seq_seed, same_ip):
     rng = random.Random(seq_seed)
     settings = ProxySettings()
     settings.ALLOW_AUTO_REQUEST_OBJECTS = False
+    # both parsing configurations of the proxy's deserializer: bodies parsed on demand (default) or eagerly
+    settings.ENABLE_DEFERRED_PACKET_PARSING = bool(seq_seed % 2)
+    ctx.count("sequences_deferred_parsing" if seq_seed % 2 else "sequences_eager_parsing")
     rig = Rig(settings=settings)
     try:
         _run_sequence(ctx, rng, rig, seq_seed, same_ip)
